@@ -656,3 +656,61 @@ func localsWrittenOnlyByOwners(c *core.Ctx) {
 		core.Undecidedf("no function writes frame locals")
 	}
 }
+
+// errorsAreNotCached (C07-R12, C14-R9): no long-lived map remembers an error.
+// An error can be a property of the invocation rather than of the thing looked
+// up — a cancelled or timed-out context while a module was being parsed — and a
+// negative cache then serves that invocation's failure to every later one.
+func errorsAreNotCached(c *core.Ctx) {
+	p := c.P
+	n := 0
+	for _, fn := range repoFns(p, "importer", "vm", "object", "compiler", ".") {
+		k := 0
+		for _, b := range fn.Blocks {
+			for _, in := range b.Instrs {
+				var val ssa.Value
+				var holder ssa.Value
+				switch x := in.(type) {
+				case *ssa.MapUpdate:
+					val, holder = x.Value, x.Map
+				case *ssa.Call:
+					if cal := x.Call.StaticCallee(); cal != nil && cal.Name() == "Store" && cal.Signature.Recv() != nil && core.IsNamed(cal.Signature.Recv().Type(), "sync", "Map") && len(x.Call.Args) == 3 {
+						val, holder = x.Call.Args[2], x.Call.Args[0]
+					}
+				}
+				if val == nil {
+					continue
+				}
+				if mi, ok := val.(*ssa.MakeInterface); ok {
+					val = mi.X
+				}
+				if !isErrorType(val.Type()) {
+					continue
+				}
+				// long-lived: a map held in a field or a package-level variable (not a local result map)
+				long := false
+				for _, o := range core.Origins(holder) {
+					switch y := o.(type) {
+					case *ssa.UnOp:
+						switch y.X.(type) {
+						case *ssa.FieldAddr, *ssa.Global:
+							long = true
+						}
+					case *ssa.Global, *ssa.FieldAddr:
+						long = true
+					}
+				}
+				if !long {
+					continue
+				}
+				n++
+				k++
+				c.Fail(core.SSAName(fn)+"|cached-error#"+itoa(k), p.Pos(in.Pos()),
+					fn.Name()+" stores an error in a long-lived map: a failure that belongs to one invocation (cancellation, timeout) is served to later ones")
+			}
+		}
+	}
+	if n == 0 {
+		c.Pass("no-error-is-cached", "importer,vm,object,compiler", "no long-lived map holds error values")
+	}
+}
